@@ -248,6 +248,13 @@ def h_set_groups(ctx, dk, ri, highs):
     return "ok"
 
 
+def h_set_groups_twice(ctx, dk, ri1, ri2, highs):
+    """Two runs in one process with different requests (and independent units)."""
+    with ctx.namespace("first."):
+        a = h_set_groups(ctx, dk, ri1, highs)
+    return "%s | %s" % (a, h_set_groups(ctx, dk, ri2, highs))
+
+
 def cases(tier):
     L = 6 if tier == "quick" else 7
     highs = [0x00, 0xFF, 0xA5] if tier == "quick" else None
@@ -261,4 +268,18 @@ def cases(tier):
             cs.append(Case("set-groups-%s-%d" % (DESTS[dk], ri), h_set_groups,
                            {"dk": dk, "ri": ri, "highs": [0x00, 0xFF, 0xA5] if tier == "quick" else
                             [0x00, 0xFF, 0xA5, 0x5A, 0x01, 0x80, 0x3C, 0xC3]}))
+    # histories: the same sequence twice in one process, with other requests / other units
+    nreq = len(REQUESTS)
+    for dk in range(4):
+        for ri1, ri2 in ((nreq - 1, 1), (2, nreq - 2), (1, 0)):
+            if DESTS[dk] == "group" and not (REQUESTS[ri1] and REQUESTS[ri2]):
+                continue
+            if DESTS[dk] in ("short", "int"):
+                continue        # 768 paths per run: the square is out of reach; blind destinations only
+            hs = [0x00, 0xFF, 0xA5]
+            cs.append(Case("set-groups-twice-%s-%d-%d" % (DESTS[dk], ri1, ri2), h_set_groups_twice,
+                           {"dk": dk, "ri1": ri1, "ri2": ri2, "highs": hs}))
+    for n in (1, 2):
+        cs.append(Case("types-conforming-twice-%d" % n, h_types_conforming, {"n": n}, repeat=2))
+    cs.append(Case("types-stream-twice", h_types_stream, {"L": 3}, repeat=2))
     return cs
